@@ -5,8 +5,8 @@ import runlib as R
 ID = 'C18'
 COQ_TARGETS = ['Props/Properties_C18.vo']
 PROPS_FILES = ['Props/Properties_C18.v']
-THEOREMS = ['C18_spec_holds', 'C18_in_tls_only', 'C18_extensions_from_tls', 'C18_pinned', 'C18_expect_tls',
-            'C18_no_half_switch', 'C18_model_total', 'C18_wrong_host_refuted']
+THEOREMS = ['C18_model_total', 'C18_spec_holds', 'C18_in_tls_only', 'C18_extensions_from_tls', 'C18_pinned', 'C18_pinned_file',
+            'C18_expect_tls', 'C18_route_cert', 'C18_no_half_switch', 'C18_wrong_host_refuted', 'C18_checker_sound']
 ENGINES = [dict(name='tlssw', c_sources=['tlssw_h.c'], extract='Extract/Extract_tlssw.v', driver='tlssw_driver.ml',
                 glue=('glue.ml', 'glue_z.ml'), accepts=lambda c: c.startswith('c8 '))]
 SHRINK = False       # the case has counted fields; the generator already produces small cases
